@@ -25,7 +25,7 @@ def body(c, prop="C12", kinds='{"val", "del"}', nvks=(1,), invariants=("ReadStab
     # 2. state injection, L0->Lbase and Li->Li+1 (MinL0L0 irrelevant for these families)
     allcases = []
     for nvk in nvks:
-        g = dict(base, NVK=str(nvk), MaxTs="4", MaxId="8", L0Hold="0", MtMax="9")
+        g = dict(base, Keys="{1, 2, 3}", NVK=str(nvk), MaxTs="5", MaxId="9", L0Hold="0", MtMax="2")
         cases = L.generate(c, "walk NVK=%d" % nvk, g, c.seed + nvk, simulate=(2500 if q else 30000), depth=32, workers=4)
         cases = [x for x in cases if x["fam"] != "L0ToL0"]
         allcases += cases
@@ -42,8 +42,31 @@ def body(c, prop="C12", kinds='{"val", "del"}', nvks=(1,), invariants=("ReadStab
     total = len(allcases)
     nmem, ndisk = (900, 150) if q else (12000, 1500)
     # always keep L0->L0 cases that leave tables behind (the situation that needs the rest of L0)
-    special = [x for x in allcases if x["fam"] == "L0ToL0" and any(t["big"] or not t["aged"] for t in x["pre"]["L0"])]
-    others = [x for x in allcases if x not in special] if len(allcases) < 20000 else allcases
+    def later_overlap(x):
+        """L0->Lbase where the oldest-first overlapping prefix stops early although a LATER table
+        overlaps the picked range (the picker must not reach over the gap)"""
+        if x["fam"] != "L0ToBase":
+            return False
+        rng = None
+        n = 0
+        for t in x["pre"]["L0"]:
+            ks = [e["k"] for e in t["ents"]]
+            lo, hi = min(ks), max(ks)
+            if rng is None or (lo <= rng[1] and rng[0] <= hi):
+                rng = (lo, hi) if rng is None else (min(rng[0], lo), max(rng[1], hi))
+                n += 1
+            else:
+                break
+        for t in x["pre"]["L0"][n + 1:]:
+            ks = [e["k"] for e in t["ents"]]
+            if min(ks) <= rng[1] and rng[0] <= max(ks):
+                return True
+        return False
+    special = [x for x in allcases if (x["fam"] == "L0ToL0" and any(t["big"] or not t["aged"] for t in x["pre"]["L0"]))
+               or later_overlap(x)]
+    c.cov["l0base_cases_with_overlap_behind_a_gap"] = sum(1 for x in special if x["fam"] == "L0ToBase")
+    sk = set(id(x) for x in special)
+    others = [x for x in allcases if id(x) not in sk]
     rnd.shuffle(special)
     rnd.shuffle(others)
     mem = special[:nmem // 3] + others[:nmem - min(len(special), nmem // 3)]
